@@ -137,7 +137,7 @@ Proof.
   induction p as [|it p IH]; intros r; [destruct r; cbn; rewrite app_nil_r; reflexivity|].
   cbn [fold_left]. rewrite IH. cbn [last_field last_matrix refs_of].
   destruct (last_field FID p), (last_field FAC p), (last_field FNA p), (last_field FDE p), (last_matrix al p);
-    destruct it as [num xref lines|[] v|k v| |t ts|d m y c au|po sep syms rows];
+    destruct it as [num xref lines|[] pad v|k v| |t ts|d m y c au|po sep syms rows];
     cbn [apply_item add_ref set_field item_matrix fieldk_eqb pick r_id r_ac r_name r_desc r_data r_refs];
     try rewrite <- app_assoc; try reflexivity;
     try (destruct (sym_indices al syms); reflexivity).
